@@ -16,11 +16,11 @@ CHECKS = {
    note="Type and constant inventory comes from go/types on types.go; the regeneration driver is added by build overlay (nothing written to /repo).",
    technique="exhaustive input enumeration + regeneration (translation) comparison", ref="3 C20"),
  "C08": dict(level="model_checking",
-   text="Explicit exploration of call histories: every sequence up to the bound over a 13-call pool chosen to collide on package-level state, each history executed in its own fresh process; every position must return what the same call returns when made first in a fresh process, and solo calls are repeated across processes (Encode determinism). Behavioural states (vectors of one-step futures) are counted: a pure implementation has exactly one.",
+   text="Explicit exploration of call histories: every sequence up to the bound over a 19-call pool chosen to collide on package-level state, each history executed in its own fresh process; every position must return what the same call returns when made first in a fresh process, and solo calls are repeated across processes (Encode determinism). Behavioural states (vectors of one-step futures) are counted: a pure implementation has exactly one.",
    note="Fresh-process baseline means no in-process reset has to be trusted. The package-level distance accumulator (listed finding) is shadowed and attributed exactly. Map-iteration nondeterminism is observed through repeated fresh-process runs, not enumerated.",
    technique="explicit-state exploration of call histories with a fresh-process differential oracle", ref="3 C08"),
  "C09": dict(level="model_checking",
-   text="Stateless schedule exploration on the real code under a cooperative scheduler with iterative preemption bounding. Scheduling points: (1) every Read/Write on harness-owned readers/writers (reads cut at record boundaries; the decoding calls again at byte granularity) for all unordered pairs of the 16 pool calls plus 3-thread and 2-calls-per-thread scenarios; (2) every access to a mutable package-level variable, through a build overlay generated from the current tree by tools in harness/cmd/vinstr (nothing written to /repo), each scenario in a fresh process, with an access-conflict oracle (variable written and touched by both goroutines, no locks in the package). Each thread must return its solo result under every schedule. A separate free-running pass of the same bodies under the Go race detector classifies every report by function signature.",
+   text="Stateless schedule exploration on the real code under a cooperative scheduler with iterative preemption bounding. Scheduling points: (1) every Read/Write on harness-owned readers/writers (reads cut at record boundaries; the decoding calls again at byte granularity) for all unordered pairs of the 19 pool calls plus 3-thread and 2-calls-per-thread scenarios; (2) every access to a mutable package-level variable, through a build overlay generated from the current tree by tools in harness/cmd/vinstr (nothing written to /repo), each scenario in a fresh process, with an access-conflict oracle (variable written and touched by both goroutines, no locks in the package). Each thread must return its solo result under every schedule. A separate free-running pass of the same bodies under the Go race detector classifies every report by function signature.",
    note="Interleavings are sequentially consistent at the granularity of the scheduling points; weak-memory effects are only sampled by the race-detector pass. Preemption bound completed: 2 (quick) / 4 (thorough) for pairs. The access-level pass leaves out the calls that hit the listed accumulator finding; if the package starts using locks/atomics the access-conflict oracle stands down (never a false alarm) and the race pass remains.",
    technique="stateless model checking with a controlled scheduler (environment-call and instrumented-access scheduling points), preemption bounding + separate race-detector pass", ref="3 C09"),
  "C05": dict(level="exploration",
@@ -36,19 +36,19 @@ CHECKS = {
    note="Three listed findings (non-UTF-8 strings, one-pass expansion order, resized compressed_speed_distance) are attributed by exact defect models; accumulated destinations are excluded (C18 findings).",
    technique="bounded exhaustive input enumeration, multi-generation round-trip oracle", ref="3 C07"),
  "C03": dict(level="model_checking",
-   text="A router model derived by reflection from the public container types (pointer member = last message, slice member = append in order) is replayed against the real decoder for every valid file type and every word of messages up to the bound, each message carrying its stream position; plus the accessor matrix, all 256 file-type bytes and type-changing file_id records.",
+   text="A router model derived by reflection from the public container types (pointer member = last message, slice member = append in order) is replayed against the real decoder for every valid file type and every word of messages up to the bound, each message carrying its stream position; plus the accessor matrix, all 256 file-type bytes, type-changing file_id records, duplicate message ids and rich (every-field) messages. Shared 'mix' family: all words up to length 3 (quick) / 4 (thorough) over 12 definition shapes x 2 local types x normal/compressed data records (both byte orders, timestamp first/middle/absent, zero-field and developer-field definitions, unknown messages and fields, signed/array/local-time fields, unhosted message, second file_id), each decoded and compared message by message and field by field with a complete reference decoder (parser + value model + timestamp machine + router).",
    note="Model derivation trusts the container struct declarations, not the add() switches. Bound: words <=2 (quick) / <=3 (thorough) over 102 symbols, runs of 100 for append growth.",
    technique="explicit enumeration of operation sequences against a reflection-derived reference model", ref="3 C03"),
  "C12": dict(level="model_checking",
-   text="The timestamp register machine of the property (reference or none, offset = reference mod 32, local time relative to the reference) is run in lock-step with the real decoder over all words up to the bound of explicit / compressed / local timestamp records, all 32x32 offset pairs, long runs with several rollovers, both byte orders.",
+   text="The timestamp register machine of the property (reference or none, offset = reference mod 32, local time relative to the reference) is run in lock-step with the real decoder over all words up to the bound of explicit / compressed / local timestamp records, all 32x32 offset pairs, long runs with several rollovers, both byte orders, zero-field definitions, reference values with a zero low byte. Shared 'mix' family: all words up to length 3 (quick) / 4 (thorough) over 12 definition shapes x 2 local types x normal/compressed data records (both byte orders, timestamp first/middle/absent, zero-field and developer-field definitions, unknown messages and fields, signed/array/local-time fields, unhosted message, second file_id), each decoded and compared message by message and field by field with a complete reference decoder (parser + value model + timestamp machine + router).",
    note="Alphabet excludes reference value 0, 32-bit overflow of the second counter and system-time references interacting with local time (property silent).",
    technique="explicit enumeration of record sequences against a reference state machine", ref="3 C12"),
  "C13": dict(level="model_checking",
-   text="The definition-slot machine is explored two ways on the real decoder: all words up to the bound over define/data/compressed-data operations, and a breadth-first search over all 3125 reachable slot states with every one-step extension followed by a probe of every slot.",
+   text="The definition-slot machine is explored two ways on the real decoder: all words up to the bound over define/data/compressed-data operations, and a breadth-first search over all 3125 reachable slot states with every one-step extension followed by a probe of every slot; chained files must not inherit slots. Shared 'mix' family: all words up to length 3 (quick) / 4 (thorough) over 12 definition shapes x 2 local types x normal/compressed data records (both byte orders, timestamp first/middle/absent, zero-field and developer-field definitions, unknown messages and fields, signed/array/local-time fields, unhosted message, second file_id), each decoded and compared message by message and field by field with a complete reference decoder (parser + value model + timestamp machine + router).",
    note="Five local types x four definition variants in the words; all 16 local types at depth 2. Values are checked with the C02 model.",
    technique="explicit-state BFS over model slot states + exhaustive bounded words, each trace replayed on the decoder", ref="3 C13"),
  "C16": dict(level="model_checking",
-   text="All words up to the bound over 12 record groups x every truncation offset x all 8 option combinations; content, error and bytes consumed must equal the option-free run and the unknown-item lists must equal the model counters (bounded by completed / in-progress records on failure).",
+   text="All words up to the bound over 12 record groups x every truncation offset x all 8 option combinations; content, error and bytes consumed must equal the option-free run and the unknown-item lists must equal the model counters (bounded by completed / in-progress records on failure). A generic form of the same oracle (counters derived from the independent parser, content from the reference decoder) runs over the mix words, the shared streams and every device file of the corpus under all 8 option sets.",
    note="Logger is a counting sink that formats its arguments (to execute the debug branches).",
    technique="explicit enumeration of record sequences x crash points x configurations against reference counters", ref="3 C16"),
  "C18": dict(level="model_checking",
@@ -56,7 +56,7 @@ CHECKS = {
    note="Known findings K1-K3 are generated code pinned by TestGenerator goldens; their defect models shadow the package-level accumulator over the worker's whole decode history.",
    technique="explicit enumeration of record sequences and file histories against a reference model with defect-model attribution", ref="3 C18"),
  "C02": dict(level="exploration",
-   text="Bounded exhaustive enumeration on the real decoder: every observable (message, field) entry x every definition of a stated compat set x both byte orders x a boundary payload alphabet x record contexts, compared with an independent value denotation model (zero/sign extension, arrays, strings, times, coordinates) and the all-invalid rule for absent fields.",
+   text="Bounded exhaustive enumeration on the real decoder: every observable (message, field) entry x every definition of a stated compat set x both byte orders x a boundary payload alphabet x record contexts, compared with an independent value denotation model (zero/sign extension, arrays, strings, times, coordinates) and the all-invalid rule for absent fields; record independence on the corpus; every device file of the corpus against the complete reference decoder. Shared 'mix' family: all words up to length 3 (quick) / 4 (thorough) over 12 definition shapes x 2 local types x normal/compressed data records (both byte orders, timestamp first/middle/absent, zero-field and developer-field definitions, unknown messages and fields, signed/array/local-time fields, unhosted message, second file_id), each decoded and compared message by message and field by field with a complete reference decoder (parser + value model + timestamp machine + router).",
    note="Model = harness/props/model.go (written from the FIT base-type rules). Value alphabets are boundary sets, not all 2^32 payloads. Messages that no file container exposes are not observable and not covered.",
    technique="bounded exhaustive input enumeration against a reference value model", ref="3 C02"),
  "C04": dict(level="fault_enumeration",
@@ -64,7 +64,7 @@ CHECKS = {
    note="Base files are small (25-50 bytes) so that the burst space is complete; longer files in the thorough tier. Reference = bitwise CRC-16/ARC.",
    technique="exhaustive fault (bit-burst) enumeration + exhaustive header CRC value enumeration across APIs", ref="3 C04"),
  "C10": dict(level="model_checking",
-   text="Stateless exploration of the reader environment: the harness owns the io.Reader and enumerates its answers at every Read with deviation bounding (bound 2 from two default behaviours), plus complete cut-set enumeration of the minimal file and uniform chunkings across the internal buffer size; every schedule must consume exactly the frame and give the schedule-independent result; chained decoding equals per-member decoding.",
+   text="Stateless exploration of the reader environment: the harness owns the io.Reader and enumerates its answers at every Read with deviation bounding (bound 2 from two default behaviours), plus complete cut-set enumeration of the minimal file and uniform chunkings across the internal buffer size; every schedule must consume exactly the frame and give the schedule-independent result; chained decoding equals per-member decoding; every ordered pair (and triple of short words) of mix-family files through DecodeChained against the reference decoder per member.",
    note="Menu of reader answers is finite (full/1/half/len-1/empty<=2/data+EOF). Bound 2 completed; all 2^24 cut sets in the thorough tier.",
    technique="deviation-bounded exhaustive exploration of environment (Read-answer) schedules on the real decoder", ref="3 C10"),
  "C11": dict(level="fault_enumeration",
